@@ -34,7 +34,8 @@ def ops : List (String × (List String → String)) := [
   ("facts.bad", fun _ =>
     let bad := badSites.map showSite ++
       (Gen.LockFacts.immutableWrites.filter (fun s => !s.barrier.threadLocal)).map showSite ++
-      (Gen.LockFacts.nested.map fun n => "nested:" ++ n.1 ++ ":" ++ n.2.1 ++ ">" ++ n.2.2.1) ++
+      (if lockOrderOk Gen.LockFacts.lockRank Gen.LockFacts.nestedEdges then []
+       else Gen.LockFacts.nested.map fun n => "lock-order-cycle:" ++ n.1 ++ ":" ++ n.2.1 ++ ">" ++ n.2.2.1) ++
       ((Gen.LockFacts.goSites.filter (fun g => !goOk g)).map fun g => "go:" ++ g.fn ++ "@" ++ g.file ++ ":" ++ toString g.line) ++
       (if tempExcl Gen.LockFacts.tempFile then [] else ["tempfile:flags=" ++ toString Gen.LockFacts.tempFile.flags])
     toString bad.length ++ (if bad.isEmpty then "" else " " ++ " ".intercalate (bad.map fun s => s.replace " " "_"))),
